@@ -35,13 +35,20 @@ RULE = ('random API-built designs from gen_designs without nand (15 primitive op
         'History: a subset of designs is exported (module under the three options + testbench, each twice: '
         'identical text required), then EXTENDED IN PLACE (new Input, Register, Outputs, read ports, sometimes a '
         'new written memory) and only the export of the extended block goes through tie + search + testbench.  '
+        'Sanitizer: per design the Coq sanitizer model (parameters regenerated from the source) is evaluated on '
+        'the wire names and compared with the identifiers read off the emitted text.  '
         'Targeted: every IEEE 1364-2001 keyword as a wire name; sanitizer-prefix, mem_<id> and '
         'testbench-identifier name collisions.')
 IMPORTS = ('From PyRTL Require Import Netlist.Sem Netlist.WFDefs Netlist.SpecHarness IO.VerilogHarness.')
-COQ_TARGETS = ['theories/Netlist/SpecHarness.vo', 'theories/IO/VerilogHarness.vo']
+IMPORTS_SAN = ('From Coq Require Import List ZArith.\nFrom PyRTL Require Import IO.VerilogSanitizerSrc.\n'
+               'Import ListNotations.\nOpen Scope Z_scope.')
+COQ_TARGETS = ['theories/Netlist/SpecHarness.vo', 'theories/IO/VerilogHarness.vo',
+               'theories/IO/VerilogSanitizerSrc.vo']
+PROPS_FILES = ['theories/Props/C05.v', 'theories/Props/C05Sanitizer.v']
 TRUSTED = ['IO/VerilogSyn.v + IO/VerilogSem.v: hand-written formalisation of the IEEE 1364-2001 subset the '
            'emitter writes (expression sizing, continuous assignment, non-blocking assignment at posedge)',
            'IO/VerilogTestbench.v: reading of the testbench `initial` block',
+           'IO/VerilogSanitizer.v legal_ident / ieee_keywords: what a legal identifier of the emitted texts is',
            'py/verilog_reader.py: parser of exactly that subset (fails closed), incl. the IEEE 1364-2001 '
            'keyword table']
 ASSUMPTIONS = [
@@ -277,6 +284,7 @@ def module_cases(ctx, n, n_hist):
     """n fresh designs exported once; then n_hist designs with a history: exported (module + testbench, twice,
     identical text required), EXTENDED IN PLACE, and only then put through the same tie + search"""
     exprs, meta, spec_exprs, spec_meta = [], [], [], {}
+    san_exprs, san_meta = [], []
     tb_jobs = []
     plan = [(i, False) for i in range(n)] + [(('h', k), True) for k in range(n_hist)]
     for i, hist in plan:
@@ -367,6 +375,11 @@ def module_cases(ctx, n, n_hist):
             ctx.count('memories', len(d.mems))
             ctx.count('roms', len(d.roms))
             ctx.count('renamed_wires', len(renamed))
+            # sanitizer tie: the identifiers the real emitter used vs the Coq model on the same names
+            ident_of = {id(w): nm for nm, w in rev.items()}
+            san_exprs.append('sanitizer_case [%s]' % '; '.join(
+                nlx.zlist(list(w.name.encode('utf-8'))) for w in dump.wires))
+            san_meta.append((i, [(w.name, ident_of.get(id(w))) for w in dump.wires]))
             small = len(dump.wires) <= (90 if hist else 60)
             if small and (hist or i < (20 if ctx.tier == 'quick' else 80)):
                 tb_jobs.append((i, d, idmap, dump, regmap, memmap, inputs))
@@ -375,6 +388,23 @@ def module_cases(ctx, n, n_hist):
     res = ctx.coq_eval(exprs, IMPORTS, tag='c05ver', shard=shard, jobs=12)
     for c, r in zip(meta, res):
         judge_module(ctx, c, r, spec[spec_meta[c['i']]])
+    try:
+        san = ctx.coq_eval(san_exprs, IMPORTS_SAN, tag='c05san', shard=shard, jobs=12)
+    except Exception as e:   # Gen/C05Sanitizer.v untranslatable or the model no longer builds
+        san = []
+        ctx.model_mismatch('sanitizer model could not be evaluated: %s' % str(e)[-500:], {})
+    for (i, pairs), r in zip(san_meta, san):
+        model, flags = r[:-1], r[-1]
+        bad = []
+        for (name, used), m, ok in zip(pairs, model, flags):
+            predicted = name if m == [] else bytes(m).decode('utf-8', 'replace')
+            ctx.count('sanitizer', 'kept' if ok else 'replaced')
+            if predicted != used:
+                bad.append((short(name), used, short(predicted)))
+        ctx.case(('san', i, tuple(n for n, _ in pairs)), nontrivial=any(f == 0 for f in flags))
+        if bad:
+            ctx.model_mismatch('IO/VerilogSanitizer.v predicts other identifiers than the emitter used (design %r): '
+                               '(name, emitted, model) = %s' % (i, bad[:5]), {'design': i, 'differences': bad[:20]})
     return tb_jobs
 
 
@@ -552,6 +582,13 @@ def targeted(ctx):
     o <<= a + b
     collide(ctx, 'verilog:name-collision:sanitizer-prefix',
             "Input '_ver_out_tmp_0' and Input 'a b' (sanitised to _ver_out_tmp_0)")
+    # Python's `$` accepts a trailing newline: 'a' and 'a\\n' would both be written as identifier a
+    pyrtl.reset_working_block()
+    a = pyrtl.Input(2, 'a')
+    b = pyrtl.Input(2, 'a\n')
+    o = pyrtl.Output(3, 'o')
+    o <<= a + b
+    collide(ctx, 'verilog:name-trailing-newline', "Input 'a' and Input 'a\\n' (kept verbatim: re.match with $)")
     # a wire named like the memory array
     pyrtl.reset_working_block()
     m = pyrtl.MemBlock(4, 2, 'm', asynchronous=True)
